@@ -57,6 +57,19 @@ func C03(tier string) {
 	}
 	r.Rule(fmt.Sprintf("per space: 9+9 coefficients recovered by probing unit vectors; declared vs published chromaticities; uniform lattice {0..%d}^3/%d and geometric lattice G^3 (|G|=%d: 0, +/-2^-k, +/-1.5*2^-k, +/-(1+/-2^-k), k<=24) for additivity and both round trips; distinct = lattice points with at least two non-zero components", steps-1, steps-1, len(geoAxis())))
 
+	// Before any colour type is used in this process: ask the matrix generator
+	// for every space's declared primaries with OTHER white points, so that
+	// state keyed on less than the full request (and lazily derived matrices)
+	// would be caught starting from a non-initial state.
+	for si := range Spaces {
+		sp := &Spaces[si]
+		for _, w := range []ciexyy.Color{ciexyy.D50, ciexyy.D65, {X: 0.314, Y: 0.351, YY: 1}, {X: 1.0 / 3, Y: 1.0 / 3, YY: 1}} {
+			if w != sp.White() {
+				_ = ciexyz.TransformToXYZForXYYPrimaries(sp.PrimR(), sp.PrimG(), sp.PrimB(), w)
+				_ = ciexyz.TransformFromXYZForXYYPrimaries(sp.PrimR(), sp.PrimG(), sp.PrimB(), w)
+			}
+		}
+	}
 	geo := geoAxis()
 	for si := range Spaces {
 		sp := &Spaces[si]
